@@ -6,7 +6,8 @@ CONSTANTS
   MaxCrash = 1
   Concurrent = FALSE
   Uploads = FALSE
-  CheckAFixed = FALSE
+  CheckAFixed = TRUE
+  SaveRmForeign = FALSE
   SameHeight = FALSE
 VIEW view
 CHECK_DEADLOCK FALSE
